@@ -84,7 +84,7 @@ def main():
         lines = [l for l in o.splitlines() if l.startswith(("VIOLATION", "UNDECIDED", "KNOWN")) or " tier=" in l]
         res["checks"][p] = {"exit": rc, "lines": [re.sub(r"replay=\S+", "replay=…", l) for l in lines][:8], "wall_s": round(time.time() - t0, 1)}
     sh("git checkout -- . && git clean -fdq tests src", wt)
-    res["detected_by"] = [p for p, c in res["checks"].items() if c["exit"] == 1]
+    res["detected_by"] = [p for p, c in res["checks"].items() if c["exit"] == 1 and any(l.startswith("VIOLATION") for l in c["lines"])]
     res["what_it_needs"] = open(os.path.join(out, f"{label}_meta.md")).read()[:3000]
     print(json.dumps({k: v for k, v in res.items() if k not in ("what_it_needs",)}, indent=1))
     if confirmed:
